@@ -290,6 +290,10 @@ def api_oracle(res, corp):
                 if "&#x202F;" in split and na[1] == nb[1] and "narrow-nbsp-normalised-only-when-split" in kf:
                     res.known("narrow-nbsp-normalised-only-when-split: %s" % split[:100])
                     continue
+                if label == "sentence" and LOCALES[loc][1] == "." and re.search(r"<mo>\.</mo><mn>\d+</mn><mo>\.</mo>$", split) \
+                        and "split-decimal-before-sentence-period-not-folded" in kf:
+                    res.known("split-decimal-before-sentence-period-not-folded: %s" % split[:100])
+                    continue
                 block, dec = LOCALES[loc]
                 mns = re.findall(r"<mn>([^<]*)</mn>", re.sub(r"&#x([0-9A-F]+);", lambda m_: chr(int(m_.group(1), 16)), split))
                 if any(any(ch_ in block + dec for ch_ in t) for t in mns[:-1] + mns[:0]) or (len(mns) > 1 and any(any(ch_ in block for ch_ in t) for t in mns)) \
